@@ -388,16 +388,33 @@ func (w *WaitTask) StatusUpdate(taskContext *TaskContext, id object.ObjMetadata)
 		}
 		// else - still failed
 	default:
-		// reconciled - check if unreconciled
-		if !w.reconciledByID(taskContext, id) {
+		// reconciled or replaced - check if unreconciled
+		im := taskContext.InventoryManager()
+		switch {
+		case w.changedUID(taskContext, id):
+			// replaced - an applied object that was replaced is not
+			// reconciled (a deleted object that was replaced still is)
+			if w.Condition == AllCurrent && !im.IsFailedReconcile(id) {
+				w.handleChangedUID(taskContext, id)
+			}
+		case !w.reconciledByID(taskContext, id):
 			// unreconciled - add to pending & send event
-			err := taskContext.InventoryManager().SetPendingReconcile(id)
+			err := im.SetPendingReconcile(id)
 			if err != nil {
 				// Object never applied or deleted!
 				klog.Errorf("Failed to mark object as pending reconcile: %v", err)
 			}
 			w.pending = append(w.pending, id)
 			w.sendEvent(taskContext, id, event.ReconcilePending)
+		case im.IsFailedReconcile(id):
+			// reported failed because it was replaced, but the actuated
+			// object is observed again and meets the condition
+			err := im.SetSuccessfulReconcile(id)
+			if err != nil {
+				// Object never applied or deleted!
+				klog.Errorf("Failed to mark object as successful reconcile: %v", err)
+			}
+			w.sendEvent(taskContext, id, event.ReconcileSuccessful)
 		}
 		// else - still reconciled
 	}
